@@ -248,6 +248,7 @@ package mocker
 //@   assigns nothing
 //@   fresh
 //@   ensures when_or_error: (result0 == nil) == (result1 != nil) && (result0 != nil ==> result0.funcTyp != nil)
+//@   ensures too_few_returns_rejected: defaultReturns != nil && funcDef != nil && len(defaultReturns) < rt_numout(rt_of(typeof(funcDef))) ==> result1 != nil
 
 //@ func (m *baseMocker) whens
 //@   props C12
@@ -283,6 +284,7 @@ package mocker
 //@     | mutex_held[addr(patch.patchesLock)], rw_wheld[addr(memory.memoryAccessLock)], rw_rheld[addr(memory.memoryAccessLock)], anyfield(When, matches), anyfield(When, defaultReturns), anyfield(BaseMatcher, results)
 //@   ensures stub_supersedes_callback: m.baseMocker.when != nil && running[m.baseMocker] == stub_of[m.baseMocker]
 //@   ensures continues_existing_configuration: old(m.baseMocker.when) != nil ==> m.baseMocker.when == old(m.baseMocker.when)
+//@   ensures[C13] too_few_return_values_rejected_up_front: old(m.baseMocker.when) == nil && m.funcDef != nil ==> len(value) >= rt_numout(rt_of(typeof(m.funcDef)))
 //@   ensures inv_kept: mocker_inv(m.baseMocker)
 //@   panics_only_if configuration_rejected: true
 
@@ -338,3 +340,12 @@ package mocker
 //@   requires receiver: b != nil
 //@   assigns b.pkgName
 //@   ensures override_set: b.pkgName == name && result == b
+
+// ---- C13: too few condition arguments / return values are rejected when the stub is configured ----------------------------
+//@ func checkParams
+//@   props C13
+//@   requires type: impTyp != nil && rt_kind(impTyp) == reflect.Func
+//@   assigns nothing
+//@   ensures too_few_returns_rejected: returns != nil && len(returns) < rt_numout(impTyp) ==> result != nil
+//@   ensures too_few_args_rejected: args != nil && len(args) + ite(isMethod, int(1), int(0)) < rt_numin(impTyp) ==> result != nil
+//@   ensures well_formed_accepted: (returns == nil || len(returns) >= rt_numout(impTyp)) && (args == nil || len(args) + ite(isMethod, int(1), int(0)) >= rt_numin(impTyp)) ==> result == nil
